@@ -160,7 +160,6 @@ SIBLINGS = [
     # (label, [(function, substitution map)])
     ('limb-add', [('gm_sm2::u256::u256_add', {}), ('gm_sm9::u256::u256_add', {}), ('gm_sm2::u256::u512_add', W512), ('gm_sm9::u256::u512_add', W512)]),
     ('limb-sub', [('gm_sm2::u256::u256_sub', {}), ('gm_sm9::u256::u256_sub', {}), ('gm_sm2::u256::u512_sub', W512), ('gm_sm9::u256::u512_sub', W512)]),
-    ('limb-cmp', [('gm_sm2::u256::u256_cmp', {}), ('gm_sm9::u256::u256_cmp', {})]),
     ('limb-mul', [('gm_sm2::u256::u256_mul', {}), ('gm_sm9::u256::u256_mul', {})]),
     ('be-decode', [('gm_sm2::u256::u256_from_be_bytes', {}), ('gm_sm9::u256::u256_from_be_bytes', {})]),
     ('be-encode', [('gm_sm2::u256::u256_to_be_bytes', {}), ('gm_sm9::u256::u256_to_be_bytes', {})]),
